@@ -11,6 +11,9 @@ pub mod c05;
 pub mod c06;
 pub mod c07;
 pub mod c08;
+pub mod c09;
+pub mod c10;
+pub mod c11;
 pub mod c16;
 pub mod c17;
 pub mod c18;
@@ -55,5 +58,5 @@ pub fn floor(rep: &mut Report, cfg: &RunCfg, floor: u64) {
 }
 
 pub fn registry() -> Vec<Mon> {
-    vec![c01::mon(), c03::mon(), c04::mon(), c05::mon(), c06::mon(), c07::mon(), c08::mon(), c16::mon(), c17::mon(), c18::mon(), c19::mon()]
+    vec![c01::mon(), c03::mon(), c04::mon(), c05::mon(), c06::mon(), c07::mon(), c08::mon(), c09::mon(), c10::mon(), c11::mon(), c16::mon(), c17::mon(), c18::mon(), c19::mon()]
 }
